@@ -19,9 +19,10 @@ VARIABLES l,        \* next trace line
           pend,     \* scalars of the ResNorm/ReadFactor/Switch events waiting for the ConvCheck that completes the step
           prevCur,  \* limbs of the previous residual norm of this solve
           fmgSeq,   \* FMG start-up events observed since SolveEnter
-          c01       \* the configuration lies in the supported set of C01: the solve must converge with rho < 1
+          c01,      \* the configuration lies in the supported set of C01: the solve must converge with rho < 1
+          cyc       \* cycle-function entries still expected for the cycle that is running (pre-order of its call tree)
 
-tvars == <<vars, l, pend, prevCur, fmgSeq, c01>>
+tvars == <<vars, l, pend, prevCur, fmgSeq, c01, cyc>>
 
 Tr == ndJsonDeserialize(IOEnv.TRACE)
 N == Len(Tr)
@@ -38,7 +39,7 @@ DLeq(a, b) == \/ a.l2 < b.l2
               \/ a.l2 = b.l2 /\ a.l1 = b.l1 /\ a.l0 <= b.l0
 IsOne(d) == d.neg = 0 /\ d.nan = 0 /\ d.l2 = 1047552 /\ d.l1 = 0 /\ d.l0 = 0     \* 0x3FF0000000000000
 
-Quiet == UNCHANGED <<pend, prevCur, fmgSeq, c01>>
+Quiet == UNCHANGED <<pend, prevCur, fmgSeq, c01, cyc>>
 
 (* ------------------------------ construction ----------------------------- *)
 \* "Ctor": a new object; every variable returns to Init with the logged abstract options
@@ -51,9 +52,9 @@ TCtor ==
   /\ built' = NoLevels /\ fgs' = FALSE /\ resNorms' = <<>> /\ exErrs' = <<>> /\ nIter' = -1 /\ meanRho' = UNSET
   /\ initNorm' = UNDEF /\ curNorm' = UNDEF /\ start' = <<"none">> /\ sid' = 0 /\ pc' = "idle" /\ k' = 0 /\ mh' = <<>>
   /\ memo' = <<>> /\ sh' = FreshSh /\ calls' = 0 /\ stopped' = FALSE /\ justSolved' = FALSE /\ hist' = <<>>
-  /\ pend' = NoPend /\ prevCur' = <<0, 0, 0>> /\ fmgSeq' = <<>> /\ c01' = (E.c01 = 1)
+  /\ pend' = NoPend /\ prevCur' = <<0, 0, 0>> /\ fmgSeq' = <<>> /\ c01' = (E.c01 = 1) /\ cyc' = <<>>
 
-TraceInit == Init /\ l = 1 /\ pend = NoPend /\ prevCur = <<0, 0, 0>> /\ fmgSeq = <<>> /\ c01 = FALSE
+TraceInit == Init /\ l = 1 /\ pend = NoPend /\ prevCur = <<0, 0, 0>> /\ fmgSeq = <<>> /\ c01 = FALSE /\ cyc = <<>>
 
 BoolOpt == {"fmg", "take", "caches", "absOn", "relOn", "exact"}
 TSetOpt ==
@@ -88,15 +89,31 @@ TSolveEnter ==
   /\ IsEvent("SolveEnter") /\ Consume
   /\ SolveEnter
   /\ E.normsSz = Len(resNorms) /\ E.errsSz = Len(exErrs) /\ (E.fgs = 1) = fgs
-  /\ fmgSeq' = <<>> /\ UNCHANGED <<pend, prevCur, c01>>
+  /\ fmgSeq' = <<>> /\ UNCHANGED <<pend, prevCur, c01, cyc>>
+
+\* pre-order of the cycle-function entries of one cycle of `kind` started on level d (kind: 0 V, 1 W, 2 F); only the
+\* top-level call may be the implicitly extrapolated variant, the recursion uses the plain cycles:
+\* V calls V once, W calls W twice, F calls F then V, until the level below is the coarsest (direct solve)
+RECURSIVE Calls(_, _, _, _)
+Calls(kind, ext, d, L) ==
+  <<<<kind, ext, d>>>> \o (IF d + 1 = L - 1 THEN <<>>
+                         ELSE CASE kind = 0 -> Calls(0, 0, d + 1, L)
+                                [] kind = 1 -> Calls(1, 0, d + 1, L) \o Calls(1, 0, d + 1, L)
+                                [] OTHER -> Calls(2, 0, d + 1, L) \o Calls(0, 0, d + 1, L))
+TCycleEnter ==
+  /\ IsEvent("CycleEnter") /\ Consume /\ UNCHANGED <<vars, pend, prevCur, fmgSeq, c01>>
+  /\ cyc # <<>> /\ <<E.kind, E.ext, E.depth>> = Head(cyc)
+  /\ cyc' = Tail(cyc)
 
 \* start-up events: collected, judged at SolveBegin
 TStartEvent ==
   /\ pc = "begin" /\ Consume /\ UNCHANGED <<vars, pend, prevCur, c01>>
-  /\ \/ IsEvent("InitZero") /\ fmgSeq' = Append(fmgSeq, <<"zero">>)
-     \/ IsEvent("FMGDirect") /\ fmgSeq' = Append(fmgSeq, <<"direct", E.level>>)
-     \/ IsEvent("FMGInterp") /\ fmgSeq' = Append(fmgSeq, <<"interp", E.from, E.to>>)
+  /\ cyc = <<>>                                   \* the previous start-up cycle has made all its calls
+  /\ \/ IsEvent("InitZero") /\ fmgSeq' = Append(fmgSeq, <<"zero">>) /\ cyc' = <<>>
+     \/ IsEvent("FMGDirect") /\ fmgSeq' = Append(fmgSeq, <<"direct", E.level>>) /\ cyc' = <<>>
+     \/ IsEvent("FMGInterp") /\ fmgSeq' = Append(fmgSeq, <<"interp", E.from, E.to>>) /\ cyc' = <<>>
      \/ IsEvent("FMGCycle") /\ fmgSeq' = Append(fmgSeq, <<"cycle", E.level, E.ext>>)
+                            /\ cyc' = Calls(E.kind, E.ext, E.level, built.L)       \* the configured FMG cycle must be what runs
 
 \* the nested iteration the property describes: direct solve on the coarsest level, then level by level
 \* interpolate and improve with `its` cycles (extrapolated cycles only on the finest level)
@@ -113,50 +130,51 @@ StartRefinesFMG == fmgSeq = StartSeqIdeal(ItsOf(fmgSeq))
 
 TSolveBegin ==
   /\ IsEvent("SolveBegin") /\ Consume
+  /\ cyc = <<>>
   /\ SolveBegin
   /\ StartRefinesFMG                                   \* C09: the start-up is the nested iteration
   /\ E.normsSz = Len(resNorms') /\ E.errsSz = Len(exErrs') /\ (E.fgs = 1) = fgs'
   /\ (E.fmg = 1) = opts.fmg /\ E.ext = opts.ext /\ E.L = built.L
   /\ E.maxIter = opts.maxIter /\ (E.absOn = 1) = opts.absOn /\ (E.relOn = 1) = opts.relOn /\ (E.exact = 1) = opts.exact
   /\ (meanRho' = ONE) <=> IsOne(E.rho)
-  /\ pend' = NoPend /\ prevCur' = <<0, 0, 0>> /\ UNCHANGED <<fmgSeq, c01>>
+  /\ pend' = NoPend /\ prevCur' = <<0, 0, 0>> /\ UNCHANGED <<fmgSeq, c01, cyc>>
 
 TLoopHead ==
   /\ IsEvent("LoopHead") /\ Consume /\ Quiet
   /\ LoopHead /\ pc' = "err" /\ E.k = k
 
 \* silent: the loop condition fails (no event is emitted outside the loop body)
-SLoopExit == pc = "head" /\ k >= opts.maxIter /\ LoopHead /\ UNCHANGED <<l, pend, prevCur, fmgSeq, c01>>
+SLoopExit == pc = "head" /\ k >= opts.maxIter /\ LoopHead /\ UNCHANGED <<l, pend, prevCur, fmgSeq, c01, cyc>>
 
 TExactErr ==
   /\ IsEvent("ExactErr") /\ Consume /\ Quiet
   /\ opts.exact /\ ExactErr
   /\ E.k = k /\ E.errsSz = Len(exErrs')
 \* silent: no exact solution set
-SNoExact == pc = "err" /\ ~opts.exact /\ ExactErr /\ UNCHANGED <<l, pend, prevCur, fmgSeq, c01>>
+SNoExact == pc = "err" /\ ~opts.exact /\ ExactErr /\ UNCHANGED <<l, pend, prevCur, fmgSeq, c01, cyc>>
 
 \* the norm step of the model is spread over 2-4 events: ResNorm, [ReadFactor, [Switch]], ConvCheck
 TResNormEv ==
-  /\ IsEvent("ResNorm") /\ Consume /\ UNCHANGED <<vars, prevCur, fmgSeq, c01>>
+  /\ IsEvent("ResNorm") /\ Consume /\ UNCHANGED <<vars, prevCur, fmgSeq, c01, cyc>>
   /\ pc = "norm" /\ ~pend.has
   /\ E.k = k
   /\ E.normsSz = Len(resNorms) + 1              \* push_back happened
   /\ Finite(E.cur)
   /\ pend' = [NoPend EXCEPT !.has = TRUE, !.k = k, !.cur = Limbs(E.cur)]
 TReadFactorEv ==
-  /\ IsEvent("ReadFactor") /\ Consume /\ UNCHANGED <<vars, prevCur, fmgSeq, c01>>
+  /\ IsEvent("ReadFactor") /\ Consume /\ UNCHANGED <<vars, prevCur, fmgSeq, c01, cyc>>
   /\ pc = "norm" /\ pend.has /\ ~pend.factorRead /\ k > 0
   \* ReadsOwnSolve: the two entries read are the norms of iterations k and k-1 of THIS solve
   /\ E.i = k /\ E.j = k - 1 /\ E.normsSz = k + 1
   /\ Limbs(E.num) = pend.cur /\ Limbs(E.den) = prevCur
   /\ pend' = [pend EXCEPT !.factorRead = TRUE, !.bad = (E.bad = 1)]
 TSwitchEv ==
-  /\ IsEvent("Switch") /\ Consume /\ UNCHANGED <<vars, prevCur, fmgSeq, c01>>
+  /\ IsEvent("Switch") /\ Consume /\ UNCHANGED <<vars, prevCur, fmgSeq, c01, cyc>>
   /\ pc = "norm" /\ pend.factorRead /\ pend.bad /\ ~pend.switched /\ E.k = k
   /\ opts.ext = 3 /\ fgs
   /\ pend' = [pend EXCEPT !.switched = TRUE]
 TConvCheck ==
-  /\ IsEvent("ConvCheck") /\ Consume /\ UNCHANGED <<fmgSeq, c01>>
+  /\ IsEvent("ConvCheck") /\ Consume /\ UNCHANGED <<fmgSeq, c01, cyc>>
   /\ pc = "norm" /\ pend.has /\ E.k = k
   /\ (k > 0) = pend.factorRead
   /\ Limbs(E.cur) = pend.cur
@@ -171,10 +189,11 @@ TConvCheck ==
 \* silent: both tolerances disabled (ExactErr went straight to the cycle)
 
 TCycleRun ==
-  /\ IsEvent("CycleRun") /\ Consume /\ Quiet
+  /\ IsEvent("CycleRun") /\ Consume /\ UNCHANGED <<pend, prevCur, fmgSeq, c01>>
+  /\ cyc = <<>> /\ cyc' = Calls(E.kind, E.ext, 0, built.L)
   /\ RunCycle
   /\ E.k = k /\ (E.fgs = 1) = fgs /\ E.ext = (IF opts.ext # 0 THEN 1 ELSE 0)
-TCycleDone == IsEvent("CycleDone") /\ Consume /\ Quiet /\ UNCHANGED vars /\ pc = "head" /\ E.k = k
+TCycleDone == IsEvent("CycleDone") /\ Consume /\ Quiet /\ UNCHANGED vars /\ pc = "head" /\ E.k = k /\ cyc = <<>>
 
 TSolveEnd ==
   /\ IsEvent("SolveEnd") /\ Consume /\ Quiet
@@ -192,7 +211,7 @@ TSolveEnd ==
 TSolveThrew ==
   /\ IsEvent("SolveThrew") /\ Consume
   /\ \/ pc = "idle" /\ SolveReject /\ Quiet
-     \/ pc # "idle" /\ SolveAbort /\ pend' = NoPend /\ UNCHANGED <<prevCur, fmgSeq, c01>>
+     \/ pc # "idle" /\ SolveAbort /\ pend' = NoPend /\ UNCHANGED <<prevCur, fmgSeq, c01>> /\ cyc' = <<>>
 
 (* --------------------------- driver observations ------------------------- *)
 \* public getters after a solve: defined values (C20)
@@ -214,7 +233,7 @@ TraceNext ==
   \/ TCtor \/ TSetOpt \/ TSetSame \/ TSetupBegin \/ TSetupLevel \/ TSetupBuilt \/ TSetupThrew
   \/ TSolveEnter \/ TStartEvent \/ TSolveBegin \/ TLoopHead \/ SLoopExit \/ TExactErr \/ SNoExact
   \/ TResNormEv \/ TReadFactorEv \/ TSwitchEv \/ TConvCheck \/ TCycleRun \/ TCycleDone \/ TSolveEnd
-  \/ TGet \/ TFresh \/ TIndep \/ TSolveThrew
+  \/ TGet \/ TFresh \/ TIndep \/ TSolveThrew \/ TCycleEnter
 
 TraceSpec == TraceInit /\ [][TraceNext]_tvars
 
